@@ -208,7 +208,7 @@ class SubstreamsInfoRead(Contract):
     Without a Size record the sizes are the unpack sizes of the one-stream folders."""
 
     target = AI + "SubstreamsInfo._read"
-    props = ("C06",)
+    props = ("C06", "C05")
     opaque_numbers = True
     fork_spec_booleans = True
     replayable = False  # the folder objects are modelled records (unpack size / digest flag / crc): no concrete harness
@@ -250,6 +250,12 @@ class SubstreamsInfoRead(Contract):
             ("stream-counts", ForAll(lambda k: And(nth(cutsN, k + 1) == nth(cutsN, k) + SP.NL(d, nth(cutsN, k)), nth(nus, k) == SP.NV(d, nth(cutsN, k))), guard=lambda k: And(has_nus, k >= 0, k < nf), over=cutsN, trigger=False)),
             ("frame-data", eq(c.data(file), d)),
         ]
+        if not conc(c) and c.eng.ctx_mode != "assume":
+            # C05 (FX24): one digest entry is allocated per declared substream, so the declared total has to fit into
+            # what remaining_size() reports after the counts (every substream is a member the header still has to name)
+            rems = [e for e in c.eng.trace if e.kind == "contract-call" and str(e.name).endswith("remaining_size")]
+            fits = And(len(rems) == 1, sum_of(c, nus) <= rems[0].result) if len(rems) == 1 else False
+            out.append(("declared-substreams-fit-the-remaining-header", Implies(has_nus, fits), ("C05",)))
         if conc(c) or c.eng.ctx_mode == "assume" or not os.environ.get("VERIF_SSREAD_POSTS"):
             # The loop invariants above already carry the per-substream facts (sizes, digest hand-out, counters).  The
             # exit clauses below restate them over the whole section; they are NOT part of the claimed check yet: 25 of
